@@ -83,6 +83,22 @@ Theorem C18_read_stream_write_stream : forall max ms,
 Proof. exact read_stream_write_stream. Qed.
 Print Assumptions C18_read_stream_write_stream.
 
+(** A refused WriteMsg ("Invalid payload size", "too big payload") puts nothing on the wire,
+    neither at once nor at a later flush of the same writer ... *)
+Theorem C18_refused_write_emits_nothing : forall max m e b,
+  write_msg_emit max m = (Some e, b) -> b = [].
+Proof. exact refused_write_emits_nothing. Qed.
+Print Assumptions C18_refused_write_emits_nothing.
+
+(** ... so on one long-lived writer with refused writes interleaved, one reader gets exactly
+    the accepted messages, in order, and then a clean end. *)
+Theorem C18_read_stream_mixed_writes : forall max ms,
+  (forall m, In m ms -> accepted max m = true -> msg_wf max m) ->
+  read_stream max (write_stream_mixed max ms) = filter (accepted max) ms /\
+  read_stream_end max (write_stream_mixed max ms) = RErrHeader.
+Proof. exact read_stream_mixed_writes. Qed.
+Print Assumptions C18_read_stream_mixed_writes.
+
 (** * Handshake (v200handshake.go, v033handshake.go, v032handshake.go, v030handshake.go) *)
 
 Theorem C18_handshake_ok_implies_same_chain_v200 : forall l st,
